@@ -577,6 +577,9 @@ func (ex *Exec) assignableCond(st *State, ft frameTarget) Term {
 		if ls.Fam != ft.Fam {
 			continue
 		}
+		if ls.Region {
+			return tTrue
+		}
 		c := eq(ft.Obj, ls.Obj)
 		if ls.Ranged {
 			if ft.Idx != nil {
